@@ -933,13 +933,16 @@ fn match_ty<I: Interner>(
             .db
             .fn_def_datum(*fn_def_id)
             .to_program_clauses(builder, environment),
-        TyKind::Str
-        | TyKind::Never
-        | TyKind::Scalar(_)
-        | TyKind::Foreign(_)
-        | TyKind::Tuple(0, _) => {
+        TyKind::Foreign(_) => {
             // These have no substitutions, so they are trivially WF
             builder.push_fact(WellFormed::Ty(ty.clone()));
+        }
+        TyKind::Str | TyKind::Never | TyKind::Scalar(_) | TyKind::Tuple(0, _) => {
+            // These have no substitutions, so they are trivially WF
+            builder.push_fact(WellFormed::Ty(ty.clone()));
+            // They mention no type parameter either. (They are never local: there is
+            // no `IsLocal` fact for them.)
+            builder.push_fact(DomainGoal::IsFullyVisible(ty.clone()));
         }
         TyKind::Raw(mutbl, _) => {
             // forall<T> WF(*const T) :- WF(T);
@@ -1047,6 +1050,13 @@ fn match_ty<I: Interner>(
                 );
 
                 let tuple_ty = TyKind::Tuple(*len, substs.clone()).intern(interner);
+                // IsFullyVisible((T0, ..., Tn)) :- IsFullyVisible(T0), ..., IsFullyVisible(Tn)
+                builder.push_clause(
+                    DomainGoal::IsFullyVisible(tuple_ty.clone()),
+                    substs.iter(interner).map(|subst| {
+                        DomainGoal::IsFullyVisible(subst.assert_ty_ref(interner).clone())
+                    }),
+                );
                 let sized = builder.db.well_known_trait_id(WellKnownTrait::Sized);
                 builder.push_clause(
                     WellFormed::Ty(tuple_ty),
